@@ -120,4 +120,93 @@ def groupKeys (ids : List Int) : List Int := (ids.mergeSort (fun a b => decide (
 def sgToEm (le : α → α → Bool) (rows : List (Int × α)) : Option (List (Int × α × α)) :=
   wedgeEm le ((groupKeys (rows.map (·.1))).map (fun k => (k, (rows.filter (fun r => r.1 == k)).map (·.2))))
 
+/-! ### the STOPGAP wedge list as a STAR table (`Starfile.write([wedge_list_df], …)` / `load_wedge_list_sg`) -/
+
+/-- a cell of the table: the tomogram number is an integer column, everything else float; NaN = not assigned -/
+inductive WCell (α : Type) where
+  | int (n : Int)
+  | num (x : α)
+  | nan
+deriving Repr, DecidableEq
+
+variable {β : Type}
+
+def WCell.map (q : α → β) : WCell α → WCell β
+  | .int n => .int n
+  | .num x => .num (q x)
+  | .nan => .nan
+def WCell.isNan : WCell α → Bool
+  | .nan => true
+  | _ => false
+def optCell : Option α → WCell α
+  | some x => .num x
+  | none => .nan
+
+structure StarTable (α : Type) where
+  cols : List String
+  rows : List (List (WCell α))
+deriving Repr, DecidableEq
+
+def StarTable.mapCells (q : α → β) (t : StarTable α) : StarTable β :=
+  { cols := t.cols, rows := t.rows.map (fun r => r.map (WCell.map q)) }
+
+/-- the value `create_wedge_list_sg` assigns to the column of that name (`Gen.C17.wedgeAssignments`) -/
+def WedgeRow.cellOf (r : WedgeRow α) (c : String) : WCell α :=
+  if c == "tomo_num" then .int r.tomoNum
+  else if c == "pixelsize" then .num r.pixelSize
+  else if c == "tomo_x" then .num r.tomoX
+  else if c == "tomo_y" then .num r.tomoY
+  else if c == "tomo_z" then .num r.tomoZ
+  else if c == "z_shift" then .num r.zShift
+  else if c == "tilt_angle" then .num r.tiltAngle
+  else if c == "defocus" then optCell r.defocus
+  else if c == "exposure" then optCell r.exposure
+  else if c == "voltage" then .num r.voltage
+  else if c == "amp_contrast" then .num r.ampContrast
+  else if c == "cs" then .num r.cs
+  else .nan
+
+/-- the table that is written: the source's column list, minus the columns in which no row has a value
+(`dropna(axis=1, how="all")`), one table row per wedge row -/
+def sgTable (rows : List (WedgeRow α)) : StarTable α :=
+  let cols := Gen.C17.wedgeColumns.filter (fun c => rows.any (fun r => !(r.cellOf c).isNan))
+  { cols := cols, rows := rows.map (fun r => cols.map r.cellOf) }
+
+/-- the cell of a table row under a column name; a column that is not in the file reads as "not given" -/
+def look (cols : List String) (cells : List (WCell β)) (c : String) : WCell β := ((cols.zip cells).lookup c).getD .nan
+
+def WCell.asInt : WCell β → Option Int
+  | .int n => some n
+  | _ => none
+def WCell.asNum : WCell β → Option β
+  | .num x => some x
+  | _ => none
+/-- an optional column: a number, or NaN / absent -/
+def WCell.asOpt : WCell β → Option (Option β)
+  | .num x => some (some x)
+  | .nan => some none
+  | .int _ => none
+
+/-- one row of `load_wedge_list_sg(path)`, read by column name -/
+def loadSgRow (cols : List String) (cells : List (WCell β)) : Option (WedgeRow β) :=
+  match (look cols cells "tomo_num").asInt, (look cols cells "pixelsize").asNum, (look cols cells "tomo_x").asNum,
+        (look cols cells "tomo_y").asNum, (look cols cells "tomo_z").asNum, (look cols cells "z_shift").asNum,
+        (look cols cells "tilt_angle").asNum, (look cols cells "defocus").asOpt, (look cols cells "exposure").asOpt,
+        (look cols cells "voltage").asNum, (look cols cells "amp_contrast").asNum, (look cols cells "cs").asNum with
+  | some n, some px, some x, some y, some z, some zs, some ta, some d, some e, some v, some a, some cs =>
+    some { tomoNum := n, pixelSize := px, tomoX := x, tomoY := y, tomoZ := z, zShift := zs, tiltAngle := ta,
+           defocus := d, exposure := e, voltage := v, ampContrast := a, cs := cs }
+  | _, _, _, _, _, _, _, _, _, _, _, _ => none
+
+def loadSg (t : StarTable β) : Option (List (WedgeRow β)) := t.rows.mapM (loadSgRow t.cols)
+
+def WedgeRow.map (q : α → β) (r : WedgeRow α) : WedgeRow β :=
+  { tomoNum := r.tomoNum, pixelSize := q r.pixelSize, tomoX := q r.tomoX, tomoY := q r.tomoY, tomoZ := q r.tomoZ,
+    zShift := q r.zShift, tiltAngle := q r.tiltAngle, defocus := r.defocus.map q, exposure := r.exposure.map q,
+    voltage := q r.voltage, ampContrast := q r.ampContrast, cs := q r.cs }
+
+/-- `wedge_list_sg_to_em(path, …)`: read the STAR wedge list, group by `tomo_num`, min / max of `tilt_angle` -/
+def sgToEmFile (le : β → β → Bool) (t : StarTable β) : Option (List (Int × β × β)) :=
+  (loadSg t).bind (fun rs => sgToEm le (rs.map (fun r => (r.tomoNum, r.tiltAngle))))
+
 end CryoCat.C17
